@@ -45,7 +45,10 @@ def to_codec(prog, hdr, info=None):
             nodes.append({"k": "tleaf", "a": [], "c": list(nd["c"]), "toks": sorted(list(t) for t in nd["toks"])})
         else:
             nodes.append({"k": nd["k"], "a": list(nd["a"]), "c": list(nd["c"])})
-    return {"nodes": nodes, "roots": prog["roots"], "outs": prog["outs"], "hdr": list(hdr), "tab": 0}
+            if "thr" in nd:
+                nodes[-1]["thr"] = list(nd["thr"])
+    return {"nodes": nodes, "roots": prog["roots"], "outs": prog["outs"], "hdr": list(hdr), "tab": 0,
+            "sweep": 1 if (info or {}).get("sweep") else 0}
 
 
 def uniform_halves(a, b):
@@ -91,6 +94,90 @@ def typed_programs(tier):
     add("ego = new Object in RectangularRegion((1, 2, 0), 0, 4, 4), with foo Range(0, 1)\nparam p = Uniform(ego.foo, 3)\n",
         [_t(24), _t(8), _c(0), _c(1), {"k": "drange", "a": [3, 4], "c": []}, _c(3), {"k": "mux", "a": [5, 2, 6], "c": []}],
         [1, 2, 7], [1, 2, 7], [["prop", "position"], ["prop", "foo"], ["param", "p"]])
+    return P
+
+
+DOMAIN_PRELUDE = """import math
+from scenic.core.distributions import distributionFunction
+LST = [10, 20, 30]
+@distributionFunction
+def vidx(i):
+    return LST[i]
+@distributionFunction
+def vsqrt(x):
+    return math.sqrt(x)
+@distributionFunction
+def vlog(x):
+    return math.log(x)
+@distributionFunction
+def vacos(x):
+    return math.acos(x)
+@distributionFunction
+def vchr(n):
+    return ord(chr(n))
+"""
+OPAQUE_KINDS = ("tdiv", "pow10", "sqrt", "log", "acos")  # results kept as terms by Codec.tla
+
+
+def pow10_threshold():
+    """The smallest double r with 10.0 ** r raising OverflowError (bisection on the bit pattern;
+    Python's own float power is the meaning here)."""
+
+    def overflows(bits):
+        try:
+            10.0 ** struct.unpack("<d", struct.pack("<q", bits))[0]
+            return False
+        except OverflowError:
+            return True
+
+    lo = struct.unpack("<q", struct.pack("<d", 308.0))[0]
+    hi = struct.unpack("<q", struct.pack("<d", 309.0))[0]
+    assert not overflows(lo) and overflows(hi)
+    while hi - lo > 1:
+        mid = (lo + hi) // 2
+        if overflows(mid):
+            hi = mid
+        else:
+            lo = mid
+    return list(struct.pack("<q", hi))
+
+
+def domain_programs(tier):
+    """Programs whose deterministic nodes have a RESTRICTED DOMAIN and are fed by random values:
+    true / floor division and modulo by a random integer, a power of a random float, math.sqrt /
+    log / acos of a random float, list indexing by a random index, ord(chr(n)).  Decoding recomputes
+    them from the decoded values, so a corrupted stored value can leave the domain.  sweep = 1: the
+    corruption sweep over their encodings is exhaustive (every value of the swept bytes)."""
+    P = []
+    dr = lambda a, b: {"k": "drange", "a": [a, b], "c": []}
+
+    def add(body, nodes, roots, outs, outnames):
+        P.append((DOMAIN_PRELUDE + body + "ego = new Object\n",
+                  {"nodes": nodes, "roots": roots, "outs": outs, "reqs": [], "maxIter": 1},
+                  {"outnames": outnames, "uniform": uniform_halves, "branches": 0, "typed": True, "sweep": True}))
+
+    pq = [["param", "p"], ["param", "q"]]
+    add("n = DiscreteRange(1, 4)\nparam p = 12 / n\nparam q = n\n",
+        [_c(1), _c(4), dr(1, 2), _c(12), {"k": "tdiv", "a": [4, 3], "c": []}], [5, 3], [5, 3], pq)
+    add("n = DiscreteRange(1, 3)\nparam p = 12 // n\nparam q = 7 % n\n",
+        [_c(1), _c(3), dr(1, 2), _c(12), {"k": "floordiv", "a": [4, 3], "c": []}, _c(7), {"k": "mod", "a": [6, 3], "c": []}],
+        [5, 7], [5, 7], pq)
+    add("x = DiscreteRange(-7, -6)\nn = DiscreteRange(2, 3)\nparam p = x % n\nparam q = x // n\n",
+        [_c(-7), _c(-6), dr(1, 2), _c(2), _c(3), dr(4, 5), {"k": "mod", "a": [3, 6], "c": []}, {"k": "floordiv", "a": [3, 6], "c": []}],
+        [7, 8], [7, 8], pq)
+    add("n = Uniform(1, 2, 4)\nparam p = 8 // n\nparam q = n\n",
+        [_c(1), _c(2), _c(4), _c(0), _c(2), dr(4, 5), {"k": "mux", "a": [6, 1, 2, 3], "c": []}, _c(8),
+         {"k": "floordiv", "a": [8, 7], "c": []}], [9, 7], [9, 7], pq)
+    add("r = Range(1, 2)\nparam p = 10 ** r\nparam q = r\n",
+        [_t(8), {"k": "pow10", "a": [1], "c": [], "thr": pow10_threshold()}], [2, 1], [2, 1], pq)
+    one = list(struct.pack("<d", 1.0))
+    for fn, lo, hi in (("sqrt", 1, 2), ("log", 1, 2), ("acos", 0, 1)):
+        add(f"r = Range({lo}, {hi})\nparam p = v{fn}(r)\nparam q = r\n",
+            [_t(8), {"k": fn, "a": [1], "c": [], "thr": one}], [2, 1], [2, 1], pq)
+    add("i = DiscreteRange(0, 2)\nparam p = vidx(i)\nparam q = i\n",
+        [_c(0), _c(2), dr(1, 2), {"k": "index", "a": [3], "c": [10, 20, 30]}], [4, 3], [4, 3], pq)
+    add("n = DiscreteRange(65, 66)\nparam p = vchr(n)\nparam q = n\n",
+        [_c(65), _c(66), dr(1, 2), {"k": "chr", "a": [3], "c": []}], [4, 3], [4, 3], pq)
     return P
 
 
